@@ -369,8 +369,18 @@ async def level2(sh, rig, r, regime, label):
         blackout["on"] = name == "blackout"
         t_end = w.now + dur
         sh.see("phases", name)
+        switch_at = w.now + r.choice([3.0, 6.0, 15.0]) if (name == "blackout" and r.random() < 0.6) else None
         while w.now < t_end:
             await asyncio.sleep(r.choice([0.3, 1.0, 5.0, 11.0]))
+            if switch_at is not None and w.now >= switch_at:
+                # the timing profile changes in the middle of the outage (a pump echo processed just
+                # before it, a second facade in the process): the "answering pings" window is the
+                # current profile's from now on
+                from geckolib.config import set_config_mode
+
+                set_config_mode(GeckoConfig.PING_FREQUENCY_IN_SECONDS >= 10)
+                switch_at = None
+                sh.count("profile_switches_during_an_outage")
             k = r.choice(["press", "set", "getwc", "rem", "none"])
             if k == "press":
                 users.append(asyncio.ensure_future(spa.async_press(r.choice([1, 2, 16]))))
@@ -492,6 +502,7 @@ def main(tier, seed):
     run.need(run.counters.get("calls_answered", 0) > 300 and run.counters.get("calls_failed", 0) > 50, "too few answered/failed calls")
     run.need(run.counters.get("api_calls_gate_closed", 0) > 10, "the gate was hardly ever closed at an API call")
     run.need(run.counters.get("api_calls_gate_closed_active_profile", 0) > 5, "the gate was hardly ever closed at an API call under the active timing profile")
+    run.need(run.counters.get("profile_switches_during_an_outage", 0) > 5, "the timing profile was hardly ever switched during an outage")
     run.need(run.counters.get("callers_cancelled_by_owner", 0) > 10, "too few callers cancelled by their owner")
     run.need(run.counters.get("gated_datagrams_attributed", 0) > 20, "too few gated datagrams observed")
     run.need(run.maxima.get("max_concurrent_callers", 0) >= 8, "never 8 or more concurrent callers")
